@@ -1,10 +1,11 @@
 \* simulation (-simulate, seeded): random schedules with up to two faults, also
 \* SIGKILL inside critical sections; every complete behaviour is emitted with the
-\* predicted shared state after each step for the replay into the real code
+\* predicted shared state after each step for the replay into the real code.
+\* Configurations: correct bodies and controls that are wrong on purpose (ids >= 40)
 SPECIFICATION Spec
 CONSTANTS
   MaxProcs = 3
-  Configs <- ConfigsQuick
+  Configs <- ConfigsReplayAll
   MaxFaults = 2
   LockedClaim = TRUE
   CheckExit = TRUE
@@ -14,10 +15,10 @@ CONSTANTS
   FaultPlans <- PlansSim
 INVARIANT TypeOK
 INVARIANT AtMostOnce
-INVARIANT ExactlyOnce
+INVARIANT ExactlyOnceG
 INVARIANT MutexRange
-INVARIANT MutexArrays
-INVARIANT NoLostUpdate
+INVARIANT MutexArraysG
+INVARIANT NoLostUpdateG
 INVARIANT NoPartialResult
 INVARIANT RaiseOnlyOnFault
 INVARIANT NoOrphans
